@@ -46,6 +46,9 @@ def unary_forms(a):
         (f"{{'': ({t})}}", "DictEmptyKey"), (f"{{'a b': ({t})}}", "DictSpace"), (f"({t}).m()", "Method0"),
         (f"({t},)[0]", "TupLitIdx"), (f"{{'k': ({t})}}.k", "DictLitAttr"), (f"{{'k': ({t})}}['k']", "DictLitKey"),
         (f"({t}).x[0](1)", "CallOfSubscriptOfAttr"),
+        # methods python's own value types really have (with defaults the caller leaves out / with no inspectable signature)
+        (f"({t}).strip()", "BuiltinStrip"), (f"({t}).encode()", "BuiltinEncode"), (f"({t}).count('a')", "BuiltinCount"), (f"({t}).split(',')", "BuiltinSplit"),
+        (f"({t}).conjugate()", "BuiltinConjugate"), (f"({t}).to_bytes(2, 'big')", "BuiltinToBytes"), (f"({t}).is_integer()", "BuiltinIsInteger"),
     ]
     return out
 
